@@ -24,6 +24,15 @@ CHECKS = {
         tech="static analysis: exception-escape analysis over the call graph, guard dominance, container-pointer invalidation and teardown-order rules"),
 }
 
+CHECKS['C09'] = dict(
+    text="Frame-boundary discipline of the runtime scope stack decided structurally for every by-name walk and every frame-entry "
+         "function: walks are bounded by the frame-base member; every function that binds `this`/parameters into a fresh scope moves "
+         "the base to that scope (RAII guard or save/assign/restore) before anything is evaluated; nothing else writes the marker. "
+         "Covers all callers/callees at once because the rule is about the only code that can consult caller scopes.",
+    note=TB + "Decides the necessary structural condition (no path on which a caller's scopes are searched); it does not execute "
+         "alpha-renamed programs. The analyser side (names bound to locals, then fields) is taken as documented.",
+    tech="static analysis: structural loop-bound matching + RAII guard recognition + dominance in frame-entry functions + who-writes")
+
 NOT_YET = "check not yet built in this round (framework under construction; see DESIGN.md §4 for the planned static rules)"
 
 
